@@ -470,7 +470,8 @@ def replay_real(case):
             bp = sc.scalar(rng.uniform(0, 6), unit='rad')
             if case.get('beam_int_deg'):
                 bp = sc.scalar(int(rng.integers(1, 359)), unit='deg')
-            ch = DiskChopper(axle_position=sc.vector([0.0, 0.0, 8.0], unit='m'), frequency=sc.scalar(sign * ratio * fp, unit='Hz'),
+            fu = case.get('freq_unit', 'Hz')
+            ch = DiskChopper(axle_position=sc.vector([0.0, 0.0, 8.0], unit='m'), frequency=sc.scalar(sign * ratio * fp, unit='Hz').to(unit=fu),
                              beam_position=bp, phase=sc.scalar(rng.uniform(-20, 20), unit='rad'),
                              slit_begin=sc.array(dims=['slit'], values=edges[0::2] + off, unit='rad'), slit_end=sc.array(dims=['slit'], values=edges[1::2] + off, unit='rad'))
             pf = sc.scalar(fp, unit='Hz')
@@ -480,6 +481,8 @@ def replay_real(case):
             else:
                 cas = Chopper.from_disk_chopper(ch, pulse_frequency=pf, npulses=case['npulses'])
                 o, c = cas.time_open.to(unit='s').values, cas.time_close.to(unit='s').values
+            if kind == 'disk' and len(o) != (round(max(ratio, 1)) + 1) * nsl:
+                bad.append(f'{len(o)} openings reported for |f|/f_pulse = {ratio} ({fu} chopper, Hz source), {(round(max(ratio, 1)) + 1) * nsl} expected ({round(max(ratio, 1))} rotation(s) per pulse period plus one, {nsl} slits)')
             if np.any(o >= c):
                 bad.append('open >= close')
             order = np.argsort(o)
@@ -504,6 +507,8 @@ def replay_real(case):
             bad = [b_ for b_ in bad if b_.startswith('spurious')]
         elif sig.endswith('completeness'):
             bad = [b_ for b_ in bad if b_.startswith('missing')]
+        elif sig.endswith('disk:count'):
+            bad = [b_ for b_ in bad if 'openings reported' in b_]
     elif kind == 'validation':
         m = case.get('model', {})
         if m:
